@@ -41,7 +41,7 @@ Theorem C04_reuse_kills_the_family :
   let res := refresh_flow cfg s1 (Some c) tok in
   o_err (snd res) = "invalid_grant" /\ o_minted (snd res) = [] /\
   (let s2 := run cfg (fst res) h2 in
-   nth_error (log s2) i = Some e -> i_rid e = r_id r -> i_kind e <> KImplicit ->
+   nth_error (log s2) i = Some e -> i_rid e = r_id r ->
    introspect cfg s2 {| p_ref := CRef i; p_tampered := tampered |} hint scopes = None).
 Proof. exact reuse_kills_family. Qed.
 Print Assumptions C04_reuse_kills_the_family.
